@@ -68,14 +68,33 @@ class Check(MacroCheck):
         mo = subprocess.run([DRIVER], input=inp, capture_output=True, text=True)
         model = mc.parse_items(mo.stdout)
         n = 0
+        wording = []
         for r in rows:
             n += 1
             real = r[12] if len(r) > 12 else ''
             exp = (model.get(r[1]) or ['?'])[0]
             if real.rstrip() != exp.rstrip():
                 facts = f"kind={r[2]} {r[3]}::{r[4]} args={r[5].replace(chr(31), ', ').replace(chr(30), '<no Debug>')} pattern={r[6]}:{r[7]} {r[8]}:{r[9]}"
-                path = engine.write_replay(self.prop, 'msg', f"{facts}\nreal : {real}\nmodel: {exp}\n", [f"message case {r[1]} of harness/src/bin/messages.rs: the real panic message does not name the call / pattern as the proved Render model does"])
-                rep.violation(path, f"message case {r[1]}: real `{real[:150]}` vs required `{exp[:150]}`")
+                # what the property itself demands of the text (the rest of the wording is the tie, not the property)
+                path_txt = f"{r[3]}::{r[4]}"
+                args = [('?' if a == chr(30) else a) for a in r[5].split(chr(31))] if r[5] != '' else []
+                call_txt = f"{path_txt}({', '.join(args)})"
+                missing = []
+                if path_txt not in real:
+                    missing.append(f"the call is not named as {path_txt}")
+                if r[2] not in ('CannotUnmock', 'NoDefaultImpl', 'FailedVerification', 'MockNeverCalled') and call_txt not in real:
+                    missing.append(f"the call is not rendered as {call_txt}")
+                if r[6] == 'debug' and (r[7] not in real or f"{r[8]}:{r[9]}" not in real):
+                    missing.append(f"the pattern is not named by its source text `{r[7]}` and {r[8]}:{r[9]}")
+                if missing:
+                    path = engine.write_replay(self.prop, 'msg', f"{facts}\nreal : {real}\nmodel: {exp}\n", [f"message case {r[1]} of harness/src/bin/messages.rs: " + '; '.join(missing)])
+                    rep.violation(path, f"message case {r[1]}: real `{real[:150]}` vs required `{exp[:150]}`")
+                else:
+                    wording.append((r[1], facts, real, exp))
+        if wording:
+            (cid, facts, real, exp) = wording[0]
+            path = engine.write_replay(self.prop, 'msg_tie', f"{facts}\nreal : {real}\nmodel: {exp}\n", [f"Render model/code correspondence broken on {len(wording)} message cases: the wording differs, while call, arguments and pattern are still named as C19 demands"])
+            rep.violation(path, f"message wording differs from the Render model (case {cid}); call / arguments / pattern still named", no_input=True)
         if p.returncode != 0 or not rows:
             path = engine.write_replay(self.prop, 'toolerror', p.stderr[-1500:], ["messages harness crashed"])
             rep.violation(path, "messages harness crashed", no_input=True)
